@@ -20,7 +20,7 @@ func init() {
 			"R13.3 SetScrapeErr runs at exit with the final error; inside it err == nil gives health up and empty error, otherwise health down and the text; " +
 			"R13.4 each failing scraper call stores a non-nil error into the completion's error variable on its error edge before the handler exits; " +
 			"R13.5 under a non-empty stop reason the writer is not handed over and the completion writes a non-200 status and records an error; " +
-			"R13.6 every WriteHeader argument in the proxy is a constant other than 200. " +
+			"R13.6 every WriteHeader argument in the proxy is a constant other than 200; R13.7 a failure recorded before any byte was forwarded is answered with a failure status by the completion. " +
 			"Not decided: what an HTTP client observes (taken from the documented net/http contract).",
 		Assumptions: []string{"go/types and go/ssa are correct", "net/http: WriteHeader after the first Write is ignored; panic(http.ErrAbortHandler) aborts the response", "fmt.Errorf never returns nil"}})
 }
@@ -132,6 +132,7 @@ func runC13(p *engine.Prog, r *engine.Report) {
 	r.Min("R13.4-error-mapping", 2)
 	r.Min("R13.5-stop-scrape", 1)
 	r.Min("R13.6-status-codes", 1)
+	r.Min("R13.7-failure-status", 1)
 	if pr.request == nil || pr.parse == nil || pr.completion == nil || pr.errCell == nil {
 		r.Add("R13.1-late-failure-aborts", "roles", engine.FuncName(fn), "the handler calls RequestTo and ParseResponse and defers a completion that calls SetScrapeErr with a captured error variable",
 			fmt.Sprintf("RequestTo:%v ParseResponse:%v completion:%v error variable:%v", pr.request != nil, pr.parse != nil, pr.completion != nil, pr.errCell != nil), engine.Undecided)
@@ -288,8 +289,12 @@ func runC13(p *engine.Prog, r *engine.Report) {
 					probs = append(probs, "the increment is conditional on "+g)
 				}
 			}
-			// every exit of the completion with the entry non-nil passes the increment
+			// the entry may be absent (target not assigned to this shard): the increment needs the test
 			nn := engine.Not(engine.EqAtom(et, "nil"))
+			if ok, _ := cfi.Implies(st.Block(), nn); !ok {
+				probs = append(probs, "the status entry is dereferenced without a nil test (the proxy also serves targets that are not assigned to this shard)")
+			}
+			// every exit of the completion with the entry non-nil passes the increment
 			v := cfi.ViewOpt(nn, nil, st.Block())
 			for _, ret := range returnsOf(pr.completion) {
 				if !v.Reachable(ret.Block()) {
@@ -470,6 +475,46 @@ func runC13(p *engine.Prog, r *engine.Report) {
 			}
 		}
 		r.Check(len(probs) == 0, "R13.5-stop-scrape", "stop reason in "+engine.FuncName(fn), engine.FuncName(fn)+" and its completion", "writer handed over only when the stop reason is empty; otherwise the completion answers non-200 and records an error", strings.Join(probs, "; "))
+	}
+
+	// ---- R13.7: a failure recorded in the completion's error variable is answered with a failure status
+	{
+		cfi := p.Info(pr.completion)
+		var probs []string
+		var errAtom string
+		for _, a := range cfi.AllAtoms() {
+			if strings.HasPrefix(a, "eq(") && strings.Contains(a, "cell:"+pr.errCell.Name()) && strings.Contains(a, "nil") {
+				if errAtom == "" {
+					errAtom = a
+				}
+			}
+		}
+		if errAtom == "" {
+			probs = append(probs, "the completion never tests the error variable")
+		} else {
+			var cut []*ssa.BasicBlock
+			for _, in := range allInstrs(pr.completion) {
+				if call, ok := in.(*ssa.Call); ok && call.Call.IsInvoke() && call.Call.Method.Name() == "WriteHeader" {
+					if t := cfi.T(call.Call.Args[0]); t.IsConst() && t.K != 200 {
+						cut = append(cut, call.Block())
+					}
+				}
+			}
+			if len(cut) == 0 {
+				probs = append(probs, "the completion never writes a failure status")
+			}
+			noErr := engine.A(errAtom)
+			v := cfi.ViewOpt(noErr, nil, cut...)
+			for _, ret := range returnsOf(pr.completion) {
+				if !v.Reachable(ret.Block()) {
+					continue
+				}
+				if ok, _ := v.Implies(ret.Block(), noErr); !ok {
+					probs = append(probs, "the completion can finish after a failed scrape without writing a failure status (Prometheus would see an empty 200 response)")
+				}
+			}
+		}
+		r.Check(len(probs) == 0, "R13.7-failure-status", "completion "+engine.FuncName(pr.completion), "completion of "+engine.FuncName(fn), "error variable non-nil at entry ⇒ a non-200 status is written before the completion ends", strings.Join(probs, "; "))
 	}
 
 	// ---- R13.6
